@@ -394,24 +394,29 @@ def r20_3(cx):
             cx.report('R20.3', b, 'pair:%s@%d' % (variant, n), ok, 'AhoCorasickKind::%s is paired with an Arc<%s>' % (variant, ty) if ok else 'AhoCorasickKind::%s is paired with an automaton of type %s' % (variant, ty), line_of(b, bi, si))
     cx.floor('R20.3', '(automaton, kind) construction sites', n, 6)
     b = cx.body('ahocorasick::AhoCorasickBuilder::build')
-    # requested kind -> builder used
-    g = discr_gates(b, lambda x: x[0] == 'f' and x[1][0] == 'dc' and x[1][2] == 'Some' and self_field(x[1][1], 'kind'))
-    ok = False
-    if g:
-        gb, x, arms, oth = g[0]
-        rows = {}
-        for v, tg in arms.items():
-            nm = variant_name(cx.facts, 'ahocorasick::AhoCorasickKind', v)
-            r = b.reach(tg, cut_blocks=[gb])
-            aggs = []
-            for y in r:
-                for st in b.blocks[y]['stmts']:
-                    if st['k'] == 'assign' and st['r'].get('k') == 'agg' and st['r'].get('agg') == 'tuple':
-                        t = b.rvalue_term(st['r'], 0, y)
-                        if len(t[3]) == 2 and is_agg(t[3][1], r'AhoCorasickKind$'):
-                            aggs.append(t[3][1][2])
-            rows[nm] = aggs
-        ok = all(rows.get(k) == [k] for k in KIND_TYPE) and b.blocks[oth]['term']['k'] == 'unreachable'
+    # requested kind -> kind reported and automaton built, on the path summaries of build (helpers unfolded)
+    from acverif.sym import summarize, canon, cstr
+    names = [v['name'] for v in cx.facts.adts['ahocorasick::AhoCorasickKind']['variants']]
+    BUILT = {'NoncontiguousNFA': r'^\(nfa::noncontiguous::Builder::build\(', 'ContiguousNFA': r'^\(nfa::contiguous::Builder::build_from_noncontiguous\(', 'DFA': r'^\(dfa::Builder::build_from_noncontiguous\('}
+    rows = {}
+    ok = True
+    for r in summarize(cx.facts, b):
+        if not (r.end == 'return' and is_agg(r.ret, r'Result$', 'Ok')):
+            continue
+        req = None
+        for c, v in r.conds:
+            if cstr(canon(c)) == 'discr((self.kind as Some).0)' and isinstance(v, int):
+                req = names[v]
+        if req is None:
+            continue
+        ac = r.ret[3]['0']
+        kd = canon(ac[3]['kind']) if ac[0] == 'agg' and isinstance(ac[3], dict) else None
+        au = canon(ac[3]['aut']) if ac[0] == 'agg' and isinstance(ac[3], dict) else None
+        rows.setdefault(req, []).append(kd[2] if kd is not None and kd[0] == 'agg' else '?')
+        inner = au[2][0] if au is not None and is_call(au, r'alloc::sync::Arc::new$') else None
+        if not (kd is not None and is_agg(kd, r'AhoCorasickKind$', req) and inner is not None and re.match(BUILT[req], cstr(inner))):
+            ok = False
+    ok = ok and all(rows.get(k) for k in KIND_TYPE)
     cx.report('R20.3', b, 'requested-kind', ok, 'Some(kind) builds exactly that kind (an arm per variant, no catch-all)' if ok else 'an explicitly requested kind can yield another kind: %s' % (rows if g else None))
     g0 = discr_gates(b, lambda x: self_field(x, 'kind'))
     ok = False
